@@ -1,8 +1,11 @@
 CONSTANTS
   MaxClients = 4
   MaxOpts = 3
+  MaxPool = 5
   Dev_SharedDefaultAck = TRUE
+  Dev_OptionCapturesToken = FALSE
   Concrete = TRUE
+  Family = "free"
   Emit = TRUE
   Samples = 0
   FromFile = TRUE
